@@ -18,6 +18,7 @@ fn replay_fn(prop: &str) -> Option<fn(&str, &serde_json::Value) -> Verdict> {
     match prop {
         "C01" => Some(props::c01::replay),
         "C02" => Some(props::c02::replay),
+        "C08" => Some(props::c08::replay),
         "C09" => Some(props::c09::replay),
         "C10" => Some(props::c10::replay),
         "C11" => Some(props::c11::replay),
@@ -65,6 +66,7 @@ fn main() {
             let code = match prop.as_str() {
                 "C01" => props::c01::run(&ctx),
                 "C02" => props::c02::run(&ctx),
+                "C08" => props::c08::run(&ctx),
                 "C09" => props::c09::run(&ctx),
                 "C10" => props::c10::run(&ctx),
                 "C11" => props::c11::run(&ctx),
